@@ -203,6 +203,18 @@ func natFact(name string, v int64, ok bool, doc string) {
 func boolFact(name string, v bool, doc string) {
 	facts = append(facts, fact{name, fmt.Sprintf("%v", v), v, doc})
 }
+func boolsFact(name string, v []bool, ok bool, doc string) {
+	if !ok {
+		// an unrecognised shape: one step that does not close
+		facts = append(facts, fact{name, "[false]", "unknown", doc + " (UNRECOGNISED SHAPE)"})
+		return
+	}
+	parts := make([]string, len(v))
+	for i, b := range v {
+		parts[i] = fmt.Sprintf("%v", b)
+	}
+	facts = append(facts, fact{name, "[" + strings.Join(parts, ", ") + "]", v, doc})
+}
 func strFact(name string, v string, doc string) {
 	facts = append(facts, fact{name, strconv.Quote(v), v, doc})
 }
@@ -670,6 +682,85 @@ func main() {
 		strFact("discSendUnicast", disc("lib/server/utils.go", "sendUnicast", "rsocks.GetUnicastSendSock"), "socket discipline of server.sendUnicast")
 		strFact("discSendMessage", disc("lib/client/dclient/netio.go", "sendMessage", "sendSocket"), "socket discipline of dclient.sendMessage")
 		strFact("discCatchReply", disc("lib/client/dclient/netio.go", "catchReply", "rsocks.GetIPRecvSock"), "socket discipline of dclient.catchReply")
+		// the constructors of lib/rsocks themselves: after syscall.Socket succeeded, one entry per `return` that reports an
+		// error — does the code close the descriptor (syscall.Close(<fd>) earlier in the same block) before it returns?
+		ctor := func(rel, fn string) ([]bool, bool) {
+			fd := funcDecl(rel, fn)
+			if fd == nil || fd.Body == nil {
+				return nil, false
+			}
+			v, openIdx := "", -1
+			for i, st := range fd.Body.List {
+				if as, ok := st.(*ast.AssignStmt); ok && len(as.Lhs) == 2 && len(as.Rhs) == 1 {
+					if c, ok := as.Rhs[0].(*ast.CallExpr); ok && calleeName(c) == "syscall.Socket" {
+						v, openIdx = src(as.Lhs[0]), i
+						break
+					}
+				}
+			}
+			// the statement after the open must be its own error check
+			if v == "" || openIdx+1 >= len(fd.Body.List) {
+				return nil, false
+			}
+			if chk, ok := fd.Body.List[openIdx+1].(*ast.IfStmt); !ok || strings.Join(strings.Fields(src(chk.Cond)), " ") != "err != nil" {
+				return nil, false
+			}
+			var res []bool
+			okShape := true
+			var scan func(list []ast.Stmt, closedAbove bool)
+			scan = func(list []ast.Stmt, closedAbove bool) {
+				closed := closedAbove
+				for _, st := range list {
+					switch x := st.(type) {
+					case *ast.ExprStmt:
+						if strings.Join(strings.Fields(src(x.X)), "") == "syscall.Close("+v+")" {
+							closed = true
+						}
+					case *ast.DeferStmt:
+						okShape = false // a deferred close would also run on success: not a shape we classify
+					case *ast.ReturnStmt:
+						if len(x.Results) == 2 && src(x.Results[1]) != "nil" {
+							res = append(res, closed)
+						}
+					case *ast.IfStmt:
+						scan(x.Body.List, closed)
+						if x.Else != nil {
+							if b, ok := x.Else.(*ast.BlockStmt); ok {
+								scan(b.List, closed)
+							} else {
+								okShape = false
+							}
+						}
+					case *ast.BlockStmt:
+						scan(x.List, closed)
+					case *ast.ForStmt, *ast.RangeStmt, *ast.SwitchStmt, *ast.TypeSwitchStmt, *ast.SelectStmt, *ast.GoStmt, *ast.LabeledStmt:
+						// a return inside one of these is not classified
+						ast.Inspect(st, func(n ast.Node) bool {
+							if _, ok := n.(*ast.ReturnStmt); ok {
+								okShape = false
+							}
+							return true
+						})
+					}
+				}
+			}
+			scan(fd.Body.List[openIdx+2:], false)
+			return res, okShape
+		}
+		cs, ok1 := ctor("lib/rsocks/send.go", "getSendSock")
+		boolsFact("ctorSendCloses", cs, ok1, "rsocks.getSendSock: per error return after socket(2) succeeded, whether the descriptor is closed first")
+		cr, ok2 := ctor("lib/rsocks/recv.go", "getRecvSock")
+		boolsFact("ctorRecvCloses", cr, ok2, "rsocks.getRecvSock: per error return after socket(2) succeeded, whether the descriptor is closed first")
+		// the public constructors only delegate
+		deleg := true
+		for _, d := range [][3]string{{"lib/rsocks/send.go", "GetIPSendSock", "return getSendSock("}, {"lib/rsocks/send.go", "GetUnicastSendSock", "return getSendSock("},
+			{"lib/rsocks/send.go", "GetARPSendSock", "return getSendSock("}, {"lib/rsocks/recv.go", "GetIPRecvSock", "return getRecvSock("}, {"lib/rsocks/recv.go", "GetARPRecvSock", "return getRecvSock("}} {
+			f := funcDecl(d[0], d[1])
+			if f == nil || f.Body == nil || len(f.Body.List) != 1 || !strings.HasPrefix(strings.Join(strings.Fields(src(f.Body.List[0])), " "), d[2]) {
+				deleg = false
+			}
+		}
+		boolFact("rsocksCtorsDelegate", deleg, "the five public rsocks constructors consist of one call of getSendSock / getRecvSock")
 		// Ping cancels its context on return, which ends sendARPPing; advanceState likewise ends sendMessage
 		tp := bodyText(funcDecl("lib/arpping/arpping.go", "Ping"))
 		boolFact("pingCancelsOnReturn", strings.Contains(tp, "actx, acancel := context.WithTimeout(ctx,") && strings.Contains(tp, "defer acancel()") && strings.Contains(tp, "go sendARPPing(actx,"),
@@ -693,6 +784,11 @@ func main() {
 			}
 		case []int64:
 			ty = "List Nat"
+		case []bool:
+			ty = "List Bool"
+		}
+		if f.lean == "[false]" {
+			ty = "List Bool"
 		}
 		if f.lean == "[0xDE, 0xAD]" {
 			ty = "List Nat"
